@@ -35,7 +35,9 @@ def pid_exists(pid):
         return True
     try:
         os.kill(pid, 0)
-    except ProcessLookupError:
+    except (ProcessLookupError, OverflowError):
+        # OverflowError: the number does not fit in a pid_t, so it cannot
+        # be the PID of an existing process.
         return False
     except PermissionError:
         # EPERM clearly means there's a process to deny access to
